@@ -214,7 +214,7 @@ class Sim13:
         op = runner.Operator(self.cluster, self.build_registry(name), settings, identity=ident,
                              priority=int(spec.get("priority", 0)), peering_name=self.pname, standalone=False)
         self.live[name] = op
-        info = {"name": name, "identity": ident, "inc": op.n, "who": op.session.identity, "priority": int(spec.get("priority", 0)),
+        info = {"name": name, "nth": nth, "identity": ident, "inc": op.n, "who": op.session.identity, "priority": int(spec.get("priority", 0)),
                 "lifetime": int(spec.get("lifetime", 60)), "t_start": self.now(), "t_stop_req": None, "t_stopped": None,
                 "t_killed": None, "result": None, "t_exit": None, "exit": None, "exit_site": None}
         self.incs.append(info)
@@ -256,6 +256,21 @@ class Sim13:
             info["t_stopped"] = self.now()
             info["result"] = repr(r)
         info["_task"] = asyncio.get_running_loop().create_task(_stop())
+
+    def on_wake(self, inc: int) -> None:
+        """`stop_on_wake: {name: t}` of the scenario: the first time after t that a `process_peering_event` call of that operator
+        has slept to a blocker's deadline undisturbed, the operator is asked to stop AT THAT TICK - the call's self-touch and the
+        pinger's withdrawal are then issued together (the coincidence of audit N3 / of the old finding F2)."""
+        info = self.by_inc.get(inc)
+        spec = self.sc.get("stop_on_wake") or {}
+        if info is None or info["name"] not in spec or self.now() < float(spec[info["name"]]) or info["t_stop_req"] is not None:
+            return
+        if inc in self.dead or info.get("_wake_stop"):
+            return
+        info["_wake_stop"] = True
+        self.mark("stop_on_wake", op=info["name"], inc=inc)
+        # (from a neutral context: the stopping task must not count as one of the operator's own tasks)
+        asyncio.get_running_loop().call_soon(self.stop_op, info["name"], context=self._base_ctx)
 
     def kill_op(self, name: str) -> None:
         op = self.live.get(name)
@@ -304,6 +319,8 @@ class Sim13:
             await asyncio.sleep(d)
 
     async def run(self) -> dict:
+        import contextvars
+        self._base_ctx = contextvars.copy_context()
         sc = self.sc
         body: dict[str, Any] = {}
         if sc.get("pre_status") is not None:
@@ -478,7 +495,12 @@ def installed(sim: Sim13) -> Iterator[None]:
             rec["touched"] = True
         sim.touches.append({"t": ticks(sim.now()), "inc": sim.inc(), "lifetime_arg": kw.get("lifetime"),
                             "in_call": rec is not None})
-        await o_touch(**kw)
+        if rec is not None:
+            selftouching.add(asyncio.current_task())
+        try:
+            await o_touch(**kw)
+        finally:
+            selftouching.discard(asyncio.current_task())
 
     async def a_sleep(delays: Any, wakeup: Any = None) -> Any:
         rec = cur()
@@ -493,12 +515,34 @@ def installed(sim: Sim13) -> Iterator[None]:
         if rec is not None:
             rec["unslept"] = None if out is None else "interrupted"
             rec["slept"] = ticks(sim.now() - t_before)
+            if out is None and rec["delays"] and rec["slept"] > 0:
+                sim.on_wake(rec["inc"])     # the call slept to a blocker's deadline undisturbed; its self-touch is next
         return out
 
+    selftouching: set = set()            # tasks inside the self-touch of a process_peering_event call
     last_randint: dict[Any, int] = {}
+    jitter_rng: dict[int, random.Random] = {}
+    jitter_idx: dict[Any, int] = {}
 
     def randint(a: int, b: int) -> int:
-        v = o_random.randint(a, b)
+        # the keep-alive jitter of every incarnation comes from its OWN stream (seed, operator, n-th start): the process-wide
+        # `random` is also drawn from by every API request (credentials.Vault picks a credential with random.choice), so the
+        # leftover requests of a killed incarnation - whose number depends on the order in which asyncio's task SETS are
+        # walked, i.e. on memory addresses - would otherwise shift the jitters of the running operators between two runs
+        inc = sim.inc()
+        info = sim.by_inc.get(inc) or {}
+        rng = jitter_rng.get(inc)
+        if rng is None:
+            rng = jitter_rng[inc] = random.Random(f"{sim.sc.get('seed', 0)}/{info.get('name', inc)}/{info.get('nth', 0)}")
+        v = rng.randint(a, b)
+        # a scenario may pin the first jitters of an operator (`"jitters": {name: [..]}`, over all its incarnations in order):
+        # corpus witnesses whose timing hangs on one keep-alive period stay what they are whatever the streams above become
+        pins = (sim.sc.get("jitters") or {}).get(info.get("name"))
+        if pins:
+            k = jitter_idx.get(info.get("name"), 0)
+            jitter_idx[info.get("name")] = k + 1
+            if k < len(pins) and a <= int(pins[k]) <= b:
+                v = int(pins[k])
         last_randint[asyncio.current_task()] = v
         return v
 
@@ -556,6 +600,9 @@ def installed(sim: Sim13) -> Iterator[None]:
     extra = {k: float(v) for k, v in (sim.sc.get("patch_latency") or {}).items()}
 
     after = {k: float(v) for k, v in (sim.sc.get("response_latency") or {}).items()}
+    # `selftouch_latency: {name: s}`: the self-touch PATCHes of that operator's process_peering_event calls reach the server
+    # that much later (one slow request: "every delivery timing of ... keep-alives")
+    slow_self = {k: float(v) for k, v in (sim.sc.get("selftouch_latency") or {}).items()}
 
     async def request(self: Any, method: str, url: str, *a: Any, **k: Any) -> Any:
         name = self.identity.split("#")[0].split("-r")[0]
@@ -571,6 +618,8 @@ def installed(sim: Sim13) -> Iterator[None]:
                 await asyncio.sleep(after[name])
                 return resp
             d = extra.get(name, 0.0)
+            if asyncio.current_task() in selftouching:
+                d += slow_self.get(name, 0.0)
             if d:
                 await asyncio.sleep(d)
         return await o_request(self, method, url, *a, **k)
@@ -662,6 +711,10 @@ ERR_ENUM = {"TypeError": "type-error", "ValueError": "value-error", "ParseError"
             "AttributeError": "attribute-error", "KeyError": "key-error", "OverflowError": "overflow-error"}
 
 
+DT_END_S = 251508844800       # 10000-01-01T00:00:00Z in seconds since the simulation epoch (the first instant after datetime.max)
+DT_MIN_S = -64029052800       # 0001-01-01T00:00:00Z (datetime.min)
+
+
 def _iso(t_ticks: int, fmt: str = "full") -> str:
     import datetime
     from ..sim import simloop
@@ -687,10 +740,18 @@ def build_status(case: dict, now_ticks: int) -> Any:
         if isinstance(rec, dict):
             rec = dict(rec)
             ls = rec.pop("lastseen", "__absent__")
+            ls_ticks = now_ticks
             if isinstance(ls, dict) and "age" in ls:
-                rec["lastseen"] = _iso(now_ticks - int(ls["age"]), ls.get("fmt", "full"))
+                ls_ticks = now_ticks - int(ls["age"])
+                rec["lastseen"] = _iso(ls_ticks, ls.get("fmt", "full"))
             elif isinstance(ls, dict) and "raw" in ls:
                 rec["lastseen"] = ls["raw"]
+            lf = rec.get("lifetime")
+            if isinstance(lf, dict) and list(lf) == ["to_max"]:
+                # a lifetime whose deadline lies k seconds around the end / the beginning of `datetime`'s range
+                rec["lifetime"] = DT_END_S - (-((-ls_ticks) // TPS)) + int(lf["to_max"])
+            elif isinstance(lf, dict) and list(lf) == ["to_min"]:
+                rec["lifetime"] = DT_MIN_S - (ls_ticks // TPS) + int(lf["to_min"])
         st[ident] = rec
     return st
 
